@@ -66,7 +66,32 @@ func vScenarioC17(rc *runCtx) {
 	if outcome == "no-listener" {
 		o.noListen = true
 	}
-	genuine := x.connector("client", 0)
+	genuine0 := x.connector("client", 0)
+	// the client's writes into the tunnel may be slow to return (the bytes are on their way, the call is not back
+	// yet); terminal output that arrives in-band meanwhile is no part of the transfer
+	slowTunnelWrite := cfg.relays == 0 && tp.Bool("c17.slowtunnelwrite", 200)
+	slowLag := time.Duration(20+tp.Draw("c17.slowtunnellag", 200)) * time.Millisecond
+	genuine := func(port int) net.Conn {
+		c := genuine0(port)
+		if vc, ok := c.(*verifsim.Conn); ok && vc != nil && slowTunnelWrite {
+			vc.Wr.ReturnLag = slowLag
+			injected := false
+			prev := vc.Wr.OnWrite
+			vc.Wr.OnWrite = func(l *verifsim.Link, d []byte) {
+				if prev != nil {
+					prev(l, d)
+				}
+				if !injected && bytes.Contains(d, []byte("#ACT:")) {
+					injected = true
+					rc.fault("terminal-output-in-band-while-ACT-is-written-to-tunnel")
+					w.Go("inband.broadcast", nil, func() {
+						x.down[0].Write([]byte("\r\nBroadcast message from root@host (pts/1):\r\n\r\nthe system is going down for maintenance\r\n"))
+					})
+				}
+			}
+		}
+		return c
+	}
 	x.clientConnector = func(port int) net.Conn {
 		switch outcome {
 		case "refuse":
